@@ -191,8 +191,10 @@ public:
     constexpr range_t& operator-=(const range_t& o)
     {
         assert(!o.empty());
-        start -= o.last();
-        finish -= o.first();
+        const T o_first = o.first();  // o may be *this
+        const T o_last = o.last();
+        start -= o_last;
+        finish -= o_first;
         return *this;
     }
 
